@@ -258,19 +258,25 @@ RemapClassOp(R, cls) ==
 (* ClassFile::new(min version, public, name, Object, no interfaces) *)
 NewClassOp(name) == [rows |-> <<<<"this", name, "", "">>, <<"super", OBJECT, "", "">>>>, ic |-> <<>>, em |-> <<>>, res |-> "new"]
 
-(* nest_jar(remap = true): [names, clash, classes, table, this, created]; `classes` is meaningful when *)
-(* no two entries receive the same name (clash = FALSE; otherwise the later entry wins in the code)    *)
-NestJarOp(jar, nests) ==
+(* nest_jar(remap = true): [names, clash, classes, table, this, created, stray]; `classes` is meaningful when *)
+(* no two entries receive the same name (clash = FALSE; otherwise the later entry wins in the code).         *)
+(* `coded` = TRUE: the routine as it stands - a created class is written under the entry name `<name>`       *)
+(* without `.class` (remap_jar_entry_name_java is handed the bare class name), so it is no class of the      *)
+(* result (`stray`); FALSE: the repaired routine.                                                             *)
+NestJarOpWith(jar, nests, coded) ==
     LET f == FilterOp(jar, nests, 1, DOMAIN jar, [this |-> <<>>, created |-> <<>>])
         T == ByClass(f.this)
         R == RenameTableOp(f.this)
-        srcs == DOMAIN jar \cup SeqToSet(f.created)
+        srcs == DOMAIN jar \cup (IF coded THEN {} ELSE SeqToSet(f.created))
         names == {MapClassT(R, c) : c \in srcs}
     IN [names |-> names, clash |-> Cardinality(names) # Cardinality(srcs),
         classes |-> [k \in names |->
             LET c == CHOOSE c \in srcs : MapClassT(R, c) = k
             IN RemapClassOp(R, VisitOp(T, c, IF c \in DOMAIN jar THEN jar[c] ELSE NewClassOp(c)))],
-        table |-> R, this |-> DOMAIN T, created |-> SeqToSet(f.created)]
+        table |-> R, this |-> DOMAIN T, created |-> SeqToSet(f.created),
+        stray |-> IF coded THEN SeqToSet(f.created) ELSE {}]
+NestJarOp(jar, nests) == NestJarOpWith(jar, nests, FALSE)
+NestJarOpAsCoded(jar, nests) == NestJarOpWith(jar, nests, TRUE)
 
 (* ---- declarative: the property ---- *)
 
